@@ -30,6 +30,12 @@ CHECKS = {
  "C09": dict(cat="exploration", tech="runtime monitoring: differential of the real FeeMarketKeeper.CalculateBaseFee / EndBlock against an independent math/big EIP-1559 model on generated contexts (function level) and after every block of real histories (history level); price-bound assertion on every admitted transaction",
    text="Held on the executions produced: function level drives the real keeper over generated (Block.MaxGas incl. -1/0/1/2/MaxInt64, block-meter consumption around target and limit, base fee 0..2^256-1, fractional/clamping/huge min gas price) points incl. an enumerated boundary grid in thorough - any panic is a violation; history level runs real chains on 16 (MaxGas, genesis base fee, min gas price) variants with fill levels from empty to over-full, compares the fee_market event and stored parameter with the model applied to block gas recomputed from consensus results, and checks that every admitted Ethereum (3 types) and Cosmos (with/without dynamic-fee extension) transaction is priced at or above max(base fee, floor(min gas price)).",
    note="For MaxGas=0 both the literal (target 0) and the unlimited-block reading are accepted; with a zero target and usage > 0 any non-panicking result >= floor(min gas price) is accepted; a prescribed value above 2^256-1 is expected saturated. Mempool-only (CheckTx) pricing is not observed.", ref="§4 C09"),
+ "C07": dict(cat="exploration", tech="runtime monitoring: reference lane predicate (written from the statement, evaluated on raw tx bytes) vs the real ante handler over a product of generated envelope shapes x execution modes; per-tx write sets and events at the tx-boundary observer",
+   text="Held on the executions produced: shape families (clean Ethereum tx; Ethereum-shaped with 1-3 of 31 envelope defects; Ethereum message beside other messages; Ethereum / vesting-creation message inside authz exec at depth 1-6 through genesis grants and self-exec; grants for the four disabled type URLs; ordinary Cosmos transactions) are each run through Simulate, CheckTx new, CheckTx recheck, FinalizeBlock under the observer, and Prepare/ProcessProposal for crash-freedom. A must-reject shape violates iff any mode returns code 0 or the delivered write set / events show an inner handler or the other lane ran; every accepted transaction is checked for exactly one lane.",
+   note="All cases are otherwise valid (real Ethereum and SIGN_MODE_DIRECT signatures, committed nonces, sufficient fees), shown by accepted twins counted as floors; authz/fee grants sit in genesis; governance and interchain-accounts routes are not driven; over-rejection is not a violation.", ref="§4 C07"),
+ "C16": dict(cat="exploration", tech="runtime monitoring: vauth proof-store / auth-store / supply ledger at the tx-boundary observer with independent signature recovery (go-ethereum SigToPub and btcec RecoverCompact)",
+   text="Held on the executions produced: the three vesting-creation messages (4 account kinds) top-level, multi-message and inside authz exec at depth 1-5 for 11 target classes; proof submissions with 24 signature renderings, submitter balances at/below/above fee, repeats, two per block / per tx. A new vesting record must have had a proof before that transaction; every new proof record must recover to the address in its key by two independent recoveries; no proof record is ever rewritten or deleted; supply falls by exactly the fixed fee per accepted submission and by 0 otherwise; submitter pays exactly fixed fee + declared tx fee on success; whole proof store and all vesting accounts rescanned after every block.",
+   note="Fixed message and fee are read from the module's constants; a signature counts as made by the key iff both recoveries yield the account (the (r, n-s) twin counts); inflation 0; interchain-accounts host and passed governance proposals are not driven.", ref="§4 C16"),
 }
 WIP = "monitor designed in DESIGN.md §4 but not built yet in this revision (work in progress; will be claimed once its check exists and is silent on the unchanged tree)"
 NA = {}
